@@ -353,6 +353,50 @@ func main() {
 		}
 		fmt.Printf("ok   %-38s executions=%d (pruned search: %d) explored=%v native=%v\n", p.name, ex.Stats.Executions, ex2.Stats.Executions, keys(explored), keys(native))
 	}
+	// detectors: programs on which the explorer must raise exactly this kind of alarm
+	for _, d := range []struct {
+		name, kind string
+		body       func()
+	}{
+		{"deadlock-is-reported", "deadlock", func() {
+			ch := make(chan int)
+			vs.Go(func() { vs.Recv(ch) })
+		}},
+		{"livelock-is-reported", "stepcap", func() {
+			// a polling loop that never makes progress: every iteration is a scheduling point
+			done := make(chan struct{})
+			vs.Go(func() {
+				for {
+					if vs.Select(true, vs.RecvCase(done)) == 0 {
+						return
+					}
+					vs.Gosched()
+				}
+			})
+		}},
+		{"lock-order-deadlock-needs-a-preemption", "deadlock", func() {
+			var a, b vsync.Mutex
+			var wg vsync.WaitGroup
+			wg.Add(2)
+			vs.Go(func() { defer wg.Done(); a.Lock(); b.Lock(); b.Unlock(); a.Unlock() })
+			vs.Go(func() { defer wg.Done(); b.Lock(); a.Lock(); a.Unlock(); b.Unlock() })
+			wg.Wait()
+		}},
+	} {
+		ex := &vs.Explorer{Cfg: vs.Config{MaxSteps: 500}, Bound: 2, Prune: true,
+			New: func() *vs.Exec { return &vs.Exec{Main: d.body} }}
+		got := map[string]int{}
+		for _, v := range ex.Explore() {
+			got[v.Kind]++
+		}
+		if got[d.kind] == 0 || len(got) != 1 {
+			fmt.Printf("FAIL %s: expected only %q alarms, got %v\n", d.name, d.kind, got)
+			fail = true
+		} else {
+			fmt.Printf("ok   %-38s executions=%d alarms=%v\n", d.name, ex.Stats.Executions, got)
+		}
+		total += ex.Stats.Executions
+	}
 	if fail {
 		os.Exit(1)
 	}
